@@ -36,7 +36,7 @@ Print Assumptions C18_rw_count_exact.
 Print Assumptions C18_enter_only_by_add_or_start.
 
 (** *** the trace oracle of C18 accepts every trace of the model (Ctl/OracleProofs18.v) *)
-From Jiva Require Import Ctl.Corr Ctl.Oracles Ctl.OracleProofs18.
+From Jiva Require Import Ctl.Corr Ctl.Oracles Ctl.OracleProofs2 Ctl.OracleProofs18.
 
 (** only replicas in service (attached and not marked failed) receive the calls of I/O, snapshot and
     resize requests: the scripted replica of every other address is unchanged *)
@@ -45,6 +45,7 @@ Theorem C18_calls_only_in_service : forall s e x, is_call e = true -> ~ In x (wr
 Proof. exact calls_only_in_service. Qed.
 
 Theorem C18_oracle_holds_on_model : forall es rf0 n w0 qs, (1 <= rf0)%nat -> forallb ev_wf es = true ->
+  forallb (ev_addrs_lt n) es = true ->
   walk_q (fun q => lift (c18_step rf0 q) (fun prev a b cur => c18_step rf0 q prev (SetMode 0%nat WO) cur))
          0 (obs0 rf0 n w0) (map One es) (trace n (init rf0 w0) (map One es)) qs = None.
 Proof. exact c18_oracle_model_init. Qed.
